@@ -1,4 +1,4 @@
-import ArtModel.Driver
+import ArtModel.Dispatch
 
 partial def loop (h : IO.FS.Stream) (out : IO.FS.Stream) : IO Unit := do
   let line ← h.getLine
